@@ -141,6 +141,22 @@ func c16(args []string) {
 			jobs = append(jobs, &job{s: s2, exp: exp2, cfg: cfg(), kind: "runto", what: mode + " " + strings.Join(targets, ",")})
 		}
 	}
+	// the last process (no out-ports, it becomes the driver) with an unconnected port
+	for _, which := range []string{"in", "param"} {
+		s := &spec.Spec{Name: "leafunconnected_" + which, MaxTasks: 4, Sources: map[string]string{"l0.txt": "l0", "l1.txt": "l1"}}
+		s.Procs = append(s.Procs, &spec.Proc{Name: "src", Kind: spec.KFileSource, Files: []string{"l0.txt", "l1.txt"}},
+			&spec.Proc{Name: "gen", Kind: spec.KCmd, Cmd: spec.BuildCmd("gen", []spec.PortDecl{{Name: "in"}}, []spec.PortDecl{{Name: "out"}}, nil, nil, nil)})
+		leaf := &spec.Proc{Name: "check", Kind: spec.KCmd}
+		if which == "in" {
+			leaf.Cmd = spec.BuildCmd("check", []spec.PortDecl{{Name: "in"}, {Name: "extra"}}, nil, nil, nil, nil)
+		} else {
+			leaf.Cmd = spec.BuildCmd("check", []spec.PortDecl{{Name: "in"}}, nil, []string{"tag"}, nil, nil)
+		}
+		s.Procs = append(s.Procs, leaf)
+		s.Conns = append(s.Conns, &spec.Conn{From: "src.out", To: "gen.in"}, &spec.Conn{From: "gen.out", To: "check.in"})
+		base := s.Clone()
+		jobs = append(jobs, &job{s: s, exp: evalRef(base, nil), cfg: Cfg{Buf: 3, Procs: 2, SoftSec: 8}, kind: "unconnected", what: "check." + which + " of the out-port-less last process", base: base})
+	}
 	// a parameter source (and a file source) feeding both a selected and an excluded process, more items than the buffer
 	for _, nv := range []int{3, 7} {
 		s := &spec.Spec{Name: fmt.Sprintf("sharedparams%d", nv), MaxTasks: 4, Sources: map[string]string{}}
